@@ -98,17 +98,22 @@ def is_path_in_repo(path):
         return False
 
 
-def _get_diff_entry_stream(path, blob, ref_name, repo_dir):
+def _get_diff_entry_stream(path, blob, ref_name, repo_dir, deleted=False):
     """Get a stream to the notebook, for a given diff entry's path and blob
 
     Returns None if path is not a Notebook file, and EXPLICIT_MISSING_FILE
     if path is missing, or the blob is None (unless diffing against working
-    tree).
+    tree), or git reports the entry as deleted on this side.
     """
     if path:
         if not path.endswith('.ipynb'):
             return None
         if ref_name is GitRefWorkingTree:
+            if deleted:
+                # git reports the path as deleted: whatever sits on disk
+                # (e.g. an untracked file of the same name) is not part
+                # of the comparison.
+                return EXPLICIT_MISSING_FILE
             # Diffing against working copy, use file on disk!
             with pushd(repo_dir):
                 try:
@@ -175,7 +180,8 @@ def changed_notebooks(ref_base, ref_remote, paths=None, repo_dir=None):
         fa = _get_diff_entry_stream(
             entry.a_path, entry.a_blob, ref_base, repo_dir)
         fb = _get_diff_entry_stream(
-            entry.b_path, entry.b_blob, ref_remote, repo_dir)
+            entry.b_path, entry.b_blob, ref_remote, repo_dir,
+            deleted=entry.deleted_file)
         if fa is None and fb is None:
             continue
         # A rename across the notebook suffix has a notebook on one side
